@@ -1,7 +1,7 @@
 """T8 OFFSET rules for the three id spaces of the BPE tokenizer (merge id, token id = 256 + merge id,
 index into the token table state.1 = token id). Shared by C02 (tokenize/de_tokenize side) and C04 (vocabulary maps)."""
 from analysis.engine import AnchorMissing
-from analysis.sym import sym, show_in, nosite, peel, core, walk, cmp_facts_at, ret_values, args_of
+from analysis.sym import sym, show_in, nosite, peel, core, walk, cmp_facts_at, ret_values, args_of, loop_source, init_value
 from analysis.pat import match, Call, Cap, ANY, Pred, Const, chain, chain_names, has
 from rules.common import body_for, bpe_body, closure_of, BPE, closures_in
 
@@ -85,7 +85,7 @@ def check_writer(ctx):
         nexts = [t for t in body.calls(r'::next$') if t.bb in loop.blocks]
         src = None
         for n in nexts:
-            s = sym(body, n.args[0])
+            s = loop_source(body, n)
             src = s
         kinds.setdefault('byte' if src is not None and has(src, ('agg', 'adt', Pred(lambda n: n.endswith('Range::Range')), ANY)) else 'merge', []).append((p, loop, src))
     okb = 'byte' in kinds and len(kinds['byte']) == 1
@@ -192,7 +192,7 @@ def check_get_vocab(ctx):
     ins = list(body.calls(r'BTreeMap::insert$|HashMap::insert$'))
     n = 0
     for t in ins:
-        k = core(sym(body, t.args[1]))
+        k = core(init_value(body, sym(body, t.args[1])))
         if mentions_state(k, 0):
             n += 1
             ctx.require(is_add256(k, lambda u: mentions_state(u, 0)), body, 'get-vocab-offset',
